@@ -369,6 +369,16 @@ func REscAll(c *core.Ctx) {
 		}
 	}
 	c.Check(overInput && inLoop(callBlk) && loopOnEveryPath(fn, callBlk), "syntax.Escape / every return follows the loop over all runes", fn.Pos(), "ranges over the input: %v; loop header dominates every return: %v", overInput, loopOnEveryPath(fn, callBlk))
+	// escape(b, r, force): with force the writer puts a backslash before EVERY printable rune; for letters that
+	// produces escapes with a meaning of their own (\a \b \d \w …), so Escape must pass force = false
+	for _, b := range fn.Blocks {
+		for _, ins := range b.Instrs {
+			if call, ok := ins.(*ssa.Call); ok && call.Call.StaticCallee() == esc && len(call.Call.Args) == 3 {
+				k, isC := call.Call.Args[2].(*ssa.Const)
+				c.Check(isC && k.Value != nil && k.Value.String() == "false", "syntax.Escape / escape() is called without forcing a backslash", call.Pos(), "the force argument is %s: a backslash before an ordinary letter is an escape sequence of its own (\\a is BEL, \\d a class), not the letter", call.Call.Args[2].String())
+			}
+		}
+	}
 }
 
 // R-UNITS: byte offsets are not rune positions.
